@@ -128,6 +128,9 @@ def gen_specs():
         s["progs"]["years"] = yrs[:4] + [2001.0]
         s["progs"]["progs"][0]["spend"] = {"t": yrs[:4] + [2001.0], "v": [100.0, 200.0, 300.0, 400.0, 500.0]}
         yield "spacing_" + lab, s
+    s = simspace.combined_spec(0.25, v=0.3, dur=1.0, tj=0.2, pa=0.3, d=0.01, br=5.0, prog=True)
+    s["progs"]["progs"][1]["comps"] = list(s["progs"]["progs"][1]["comps"]) + ["dead"]  # a program that also reaches a sink compartment
+    yield "targets_sink", s
     yield "agg", c06.model("agg", 0.25, "three", 0.5, 1.5, "both", True, None)
     yield "state", c06.model("state", 0.5, "one", 1.0, 1.0, "min", True, None)
     for t in simspace.timed("quick"):
@@ -315,7 +318,7 @@ def run_rt_library(case):
 
 # ------------------------------------------------------------------ (b) edit histories
 
-OPS = ["copy", "add_pop", "remove_pop", "remove_pop_label", "progset_drop_pop_label", "remove_par_label", "remove_program_label", "add_program", "remove_program", "remove_program_first", "add_par", "remove_par", "sample0", "reconcile_uc", "reconcile05", "reconcile_b", "reconcile_bo", "reconcile_ub", "loadcal_match", "loadcal_extra", "loadcal_missing"]
+OPS = ["copy", "reload", "add_pop", "remove_pop", "remove_pop_label", "progset_drop_pop_label", "remove_par_label", "remove_program_label", "add_program", "remove_program", "remove_program_first", "add_par", "remove_par", "sample0", "reconcile_uc", "reconcile05", "reconcile_b", "reconcile_bo", "reconcile_ub", "loadcal_match", "loadcal_extra", "loadcal_missing"]
 
 
 class State:
@@ -328,6 +331,13 @@ class State:
         w = World(spec)
         self.spec = spec
         self.F, self.D, self.parset, self.progset = w.F, w.D, w.parset, w.progset
+        # one compartment table carries year-specific values only (written without a "Constant" column)
+        for ts in self.D.tdve["sus"].ts.values():
+            v0 = float(ts.assumption)
+            ts.assumption = None
+            ts.insert(2000.0, v0)
+            ts.insert(2001.0, v0)
+        self.parset = at.ParameterSet(self.F, self.D)
         self.parset.pars["vr"].y_factor["pa1"] = 0.8
         self.parset.pars["dr"].meta_y_factor = 1.3
         self.instr = at.ProgramInstructions(start_year=2001.0)
@@ -368,9 +378,14 @@ def apply_op(st, op):
             return vs
         st.D.add_pop(new, "Pop " + new)
         src = list(st.D.pops)[0]
+        y0 = float(st.spec["sim"][0])
         for td in st.D.tdve.values():
             if src in td.ts and new in td.ts:
-                td.ts[new] = sc.dcp(td.ts[src])
+                # the new population's values are entered as constants (what the first population has at the start year)
+                ts_new = sc.dcp(td.ts[src])
+                ts_new.t, ts_new.vals = [], []
+                ts_new.assumption = float(td.ts[src].interpolate(np.array([y0]))[0])
+                td.ts[new] = ts_new
         st.progset.add_pop(new, "Pop " + new)
         st.refresh_parset()
     elif op in ("remove_pop", "remove_pop_label"):
@@ -395,6 +410,10 @@ def apply_op(st, op):
         if len(st.progset.programs) < 2:
             return vs
         st.progset.remove_program(list(st.progset.programs.values())[0].label)
+    elif op == "reload":
+        # the live objects are replaced by what a user gets who saves everything and opens the files again
+        sh = rebuilt(st)
+        st.D, st.parset, st.progset = sh.D, sh.parset, sh.progset
     elif op == "add_program":
         new = "P3" if "P3" not in st.progset.programs else "P4"
         if new in st.progset.programs:
